@@ -28,6 +28,8 @@ import FluteModel.Prim
     once (`openFailed`); >= 1 = the first read fails -> the encoder yields nothing, the file is released and the
     call gives the hand back, `new_encoder`, /repo a00f689): transfer attempts that fail to START.  A read error
     in the MIDDLE of a transfer (truncated transfer, finding sched-8) is not modelled (engine-only probe).
+    Input domain: a code >= 1 is only given to a NON-EMPTY object (the lone packet of an empty object needs no
+    data, so a read failure is unobservable there and the real attempt succeeds; driver and engine answer `bad-op`).
   * Rust panics: `State.panic` would be set (and the driver reports `PANIC`).  After the repairs of D4
     (`div_f64(0.0)` for an empty object with a target acquisition) and of the `fdtid + 1` overflow
     (`fdt_start_id = u32::MAX`; now `wrapping_add(1) & 0xFFFFF` = `(fdtid + 1) % 2^20`) no transition of the
